@@ -61,7 +61,7 @@ ClassesOf(s) ==
     [] s.kind = "segment" -> SegClasses
     [] s.kind = "json_shape" -> {"list", "str", "int", "null", "empty_list", "list_of_nondict", "missing"}
     [] s.kind = "compact_shape" -> {"0", "1", "3", "5", "6", "empty", "not_utf8", "huge"}
-    [] s.kind = "inner" -> {"corrupt", "truncated", "empty", "notjson", "nonobject", "bomb"}
+    [] s.kind = "inner" -> {"corrupt", "truncated", "empty", "notjson", "nonobject", "bomb", "short"}   \* short: one or two octets
 
 \* ------------------------------------------------------------------ pipeline
 \* stage at which the slot's content is first touched by a primitive with a domain
@@ -89,7 +89,7 @@ Native(s, c) ==
     [] s.kind = "epk" /\ s.name = "crv" /\ c \in {"str_unknown", "str_otherkty"} -> "KeyError"
     [] s.kind = "epk" /\ c \in {"int", "list", "null", "obj", "list_nested", "list_obj", "bool", "float"} -> "TypeError"
     [] s.kind = "epk" /\ c = "deep" -> "RecursionError"
-    [] s.kind = "inner" /\ s.name = "deflate" /\ c \in {"corrupt", "truncated"} -> "zlib.error"
+    [] s.kind = "inner" /\ s.name = "deflate" /\ c \in {"corrupt", "truncated", "short"} -> "zlib.error"
     [] s.kind = "json_shape" /\ c \in {"list", "str", "int", "null", "list_of_nondict"} -> "TypeError"
     [] s.kind = "segment" -> "binascii.Error"          \* a ValueError already
     [] OTHER -> "none"
